@@ -628,6 +628,9 @@ func execScenario(sc scenario) (line string) {
 	idleRounds := 0
 	for r.steps < maxSteps {
 		parked, _ := r.settle()
+		if len(r.errors) > 0 {
+			break // the system did not settle (a goroutine keeps running without reaching a yield point)
+		}
 		select {
 		case <-done:
 			// harness threads are finished; let the remaining loop goroutines run to their end
@@ -677,7 +680,7 @@ finished:
 	}
 	// goroutine leak snapshot: goroutines created by this loop (timer, interval and loop goroutines) that are still
 	// alive after the controller's final Terminate() returned and everything schedulable has run
-	aborted := r.stuck || r.steps >= maxSteps
+	aborted := r.stuck || r.steps >= maxSteps || len(r.errors) > 0
 	leaks := 0
 	if !aborted {
 		time.Sleep(300 * time.Microsecond)
